@@ -2,11 +2,16 @@
 import sys, os, json, subprocess, time, shutil, glob, argparse, fcntl, hashlib
 
 VERIF = os.path.dirname(os.path.dirname(os.path.abspath(__file__)))
+# The tree under test is /repo. For mutation experiments the environment can point the driver at
+# another tree; then builds, evidence and new replays go to a separate sandbox directory so that
+# nothing registered in MANIFEST.json is disturbed.
 REPO = os.environ.get("VERIF_REPO", "/repo")
-BUILD = os.path.join(VERIF, ".build")
-WORK = os.path.join(VERIF, ".work")
-EVID = os.path.join(VERIF, "evidence")
-REPLAYS = os.path.join(VERIF, "replays")
+ALT = os.environ.get("VERIF_SANDBOX", "")
+BUILD = os.path.join(ALT, "build") if ALT else os.path.join(VERIF, ".build")
+WORK = os.path.join(ALT, "work") if ALT else os.path.join(VERIF, ".work")
+EVID = os.path.join(ALT, "evidence") if ALT else os.path.join(VERIF, "evidence")
+REPLAYS = os.path.join(VERIF, "replays")          # saved regression cases are always re-run
+NEW_REPLAYS = os.path.join(ALT, "replays") if ALT else REPLAYS
 KNOWN_FILE = os.path.join(VERIF, "known_findings.jsonl")
 NCPU = os.cpu_count() or 4
 
@@ -16,6 +21,11 @@ COMPILERS = {"rel": "g++", "asan": "clang++", "tsan": "clang++"}
 # property table. engine "rc": a rapidcheck executable built in the `rel` flavour.
 # quick/thorough: (multiplier on each sub-check's base case count, number of parallel seeds)
 PROPS = {
+    "C01": dict(engine="rc", exe="c01", quick=(1, 6), thorough=(15, 16),
+                assumptions=["random models are excluded (C15 covers them)", "'stand-alone' = the same entry point with a one-element list on a twin world built from the same file, plus temperature()/composition()/grains()"]),
+    "C03": dict(engine="rc", exe="c03", quick=(1, 4), thorough=(20, 16),
+                assumptions=["'outside every feature' is established by construction (far points) or by the code's own tag == -1",
+                             "background closed form evaluated in double with relative tolerance 1e-13"]),
     "C19": dict(engine="rc", exe="c19", quick=(1, 4), thorough=(12, 16),
                 assumptions=["dense sampling (4000 samples per curve segment) stands for 'every curve point'",
                              "exact polygon oracle restricted to coordinates whose arithmetic is exact in double",
@@ -86,10 +96,10 @@ def run_replay(exe, path, timeout=600):
 
 
 def save_replay(pid, src, label):
-    os.makedirs(os.path.join(REPLAYS, pid), exist_ok=True)
+    os.makedirs(os.path.join(NEW_REPLAYS, pid), exist_ok=True)
     data = open(src, "rb").read()
     h = hashlib.sha1(data).hexdigest()[:10]
-    dst = os.path.join(REPLAYS, pid, "%s-%s.json" % (label, h))
+    dst = os.path.join(NEW_REPLAYS, pid, "%s-%s.json" % (label, h))
     with open(dst, "wb") as f:
         f.write(data)
     return dst
@@ -170,6 +180,9 @@ def check_rc(pid, cfg, tier, seed):
             for c, v in s.get("known_by_signature", {}).items():
                 m["known_by_signature"][c] = m["known_by_signature"].get(c, 0) + int(v)
             m["hashes"].update(s["nt_hashes"])
+            for x in s.get("exception_samples", []):
+                if len(m.setdefault("exception_samples", [])) < 3:
+                    m["exception_samples"].append(x)
             if len(m["samples"]) < 2:
                 m["samples"].extend(s["samples"][:1])
             if s["status"] == "fail":
@@ -178,10 +191,29 @@ def check_rc(pid, cfg, tier, seed):
             elif s["status"] in ("gaveup", "error") and m["status"] == "pass":
                 m["status"] = s["status"]
                 notes.append("%s: %s %s" % (name, s["status"], s.get("failure_message", "")))
+    unresolved_crash = False
     for i, rc in crashed:
-        # a process that died without writing its fragment: the code under test crashed in-process
-        logtxt = open(os.path.join(work, "p%d.log" % i)).read()[-1500:]
-        notes.append("process p%d ended with status %s without a result: %s" % (i, rc, logtxt))
+        # a process that died without writing its fragment: the code under test crashed in-process.
+        # The case that was running is in p<i>.current.json; replay it natively, then under valgrind.
+        logtxt = open(os.path.join(work, "p%d.log" % i)).read()[-600:]
+        cur = os.path.join(work, "p%d.current.json" % i)
+        if not os.path.exists(cur):
+            notes.append("process p%d ended with status %s before running a case: %s" % (i, rc, logtxt))
+            unresolved_crash = True
+            continue
+        results = [run_replay(exe, cur) for _ in range(3)]
+        if all(r[0] == "fail" for r in results):
+            dst = save_replay(pid, cur, "crash")
+            violations.append((dst, "process crashed (status %s) and the saved case reproduces it: %s" % (rc, results[0][3][-300:])))
+            continue
+        vg = subprocess.run(["valgrind", "-q", "--error-exitcode=99", exe, "--replay", cur], stdout=subprocess.PIPE, stderr=subprocess.STDOUT, text=True,
+                            env=dict(os.environ, VERIF_KNOWN=KNOWN_FILE))
+        if vg.returncode == 99 or vg.returncode < 0:
+            dst = save_replay(pid, cur, "memory-error")
+            violations.append((dst, "process crashed (status %s); valgrind reports a memory error on the saved case: %s" % (rc, vg.stdout[:1200])))
+        else:
+            notes.append("process p%d crashed with status %s (%s) but the last case does not reproduce it natively or under valgrind" % (i, rc, logtxt))
+            unresolved_crash = True
 
     # 4. confirm failures: replay the shrunk case 3x outside rapidcheck
     for name, m in subs.items():
@@ -223,7 +255,10 @@ def check_rc(pid, cfg, tier, seed):
                            classes=m["classes"]) for n, m in subs.items()},
         notes=notes,
     )
-    inconclusive = bool(crashed) or any(m["status"] in ("gaveup", "error") for m in subs.values())
+    for n, m in subs.items():
+        if m["evaluations"] and m["discards"] > 0.25 * m["evaluations"]:
+            notes.append("generator health: %s discarded %d of %d cases %s" % (n, m["discards"], m["evaluations"], m.get("exception_samples", [])[:1]))
+    inconclusive = bool(crashed) or any(m["status"] in ("gaveup", "error") for m in subs.values()) or any("generator health" in n for n in notes)
     for sig, what in sorted(known_lines.items()):
         print("KNOWN-FINDING: property=%s %s [%s]" % (pid, what, sig))
     for path, msg in violations:
@@ -234,7 +269,7 @@ def check_rc(pid, cfg, tier, seed):
     write_evidence(pid, tier, seed, coverage, cfg.get("assumptions", []), time.time() - t0, len(violations),
                    dict(inconclusive=inconclusive, known_findings_reported=sorted(known_lines)))
     shutil.rmtree(work, ignore_errors=True)
-    if crashed and not violations:
+    if unresolved_crash and not violations:
         # an in-process crash of the code under test with no saved case: infrastructure-level error, not a claim
         log("ERROR: harness process crashed; see notes in evidence")
         return 2
